@@ -1,6 +1,9 @@
 package main
 
 import (
+	"math"
+	"strconv"
+	"os"
 	"fmt"
 	"math/big"
 
@@ -20,6 +23,7 @@ type c18Harness struct {
 	a, b     *World
 	diverged bool
 	triggers map[uint64]int // vault id -> number of extra accrual steps in A
+	trigTimes map[uint64][]int64
 	ltrig    map[uint64]int // locker id -> same
 	pre      struct {
 		kind           string
@@ -36,6 +40,7 @@ func (h *c18Harness) Start(cfg Config) {
 	h.a = buildWorld(cfg)
 	h.b = buildWorld(cfg)
 	h.triggers = map[uint64]int{}
+	h.trigTimes = map[uint64][]int64{}
 	h.ltrig = map[uint64]int{}
 }
 func (h *c18Harness) World() *World { return h.a }
@@ -154,6 +159,7 @@ func (h *c18Harness) Step(ev *Event, step int) (Result, *Violation) {
 		if res.Tx.OK() && h.pre.valid {
 			if h.pre.kind == "vault" {
 				h.triggers[h.pre.id]++
+				h.trigTimes[h.pre.id] = append(h.trigTimes[h.pre.id], h.a.Hdr.Time.Unix())
 			} else {
 				h.ltrig[h.pre.id]++
 			}
@@ -234,7 +240,34 @@ func (h *c18Harness) compareTwins() *Violation {
 		base := new(big.Int).Add(v1.AmountOut.BigInt(), v1.InterestAccumulated.BigInt())
 		noise := new(big.Int).Mul(base, big.NewInt(steps*4))
 		noise.Quo(noise, new(big.Int).Exp(big.NewInt(10), big.NewInt(15), nil))
-		tol := sdk.NewDecFromBigInt(noise).Add(sdk.OneDec())
+		// noise = steps*4e-15*(principal+interest) units (float64 resolution of the module's growth factor), plus the last
+		// stored decimals of the carried fraction (1e-15 per step)
+		tol := sdk.NewDecFromBigIntWithPrec(new(big.Int).Mul(base, big.NewInt(steps*4)), 15).Add(sdk.NewDecWithPrec(steps, 15))
+		_ = noise
+		// amounts are stored in whole units with a carried fraction: each extra trigger can move less than one unit of
+		// carried fraction into the compounding base, which from then on grows at most like the debt as a whole did
+		// (owed/principal). That is the "rounding in the last stored place" of a whole-unit ledger.
+		// Bound: one unit per extra trigger, grown at the product's annual rate from the trigger until now.
+		ep, _ := a.App.AssetKeeper.GetPairsVault(a.Ctx(), v1.ExtendedPairVaultID)
+		fee, _ := ep.StabilityFee.Float64()
+		extra := 0.0
+		for _, t := range h.trigTimes[va.Id] {
+			years := float64(a.Hdr.Time.Unix()-t) / 31557600.0
+			if years > 0 {
+				extra += (math.Pow(1+fee, years) - 1) * 1.05
+			}
+		}
+		if es, err := sdk.NewDecFromStr(strconv.FormatFloat(extra, 'f', 18, 64)); err == nil {
+			tol = tol.Add(es)
+		}
+		if oa.GT(ob.Add(tol)) && os.Getenv("VERIF_DEBUG_C18") != "" {
+			for _, x := range []*World{a, b} {
+				v, _ := x.App.VaultKeeper.GetVault(x.Ctx(), va.Id)
+				tr, _ := x.App.Rewardskeeper.GetVaultInterestTracker(x.Ctx(), va.Id, v.AppId)
+				ep, _ := x.App.AssetKeeper.GetPairsVault(x.Ctx(), v.ExtendedPairVaultID)
+				fmt.Printf("DEBUG vault %d: out=%s int=%s frac=%s bh=%d bt=%d now=%d fee=%s closing=%s\n", v.Id, v.AmountOut, v.InterestAccumulated, tr.InterestAccumulated, v.BlockHeight, v.BlockTime.Unix(), x.Hdr.Time.Unix(), ep.StabilityFee, v.ClosingFeeAccumulated)
+			}
+		}
 		if oa.GT(ob.Add(tol)) {
 			return &Violation{Property: "C18", OracleID: "c18.additivity", Signature: "more_triggers_owe_more:vault",
 				Detail: fmt.Sprintf("vault %d (principal %s): with %d extra interest-calculation triggers it owes %s, with a single accrual %s (tolerance %s)", va.Id, v1.AmountOut, h.triggers[va.Id], oa, ob, tol)}
